@@ -40,6 +40,10 @@ def run(ctx):
              'same under every chunk schedule')
     rep.rule('R1.5', 'tail windows (EndCaptureRegion) are registered before '
              'streaming starts')
+    rep.rule('R1.8', 'per image and schedule: no region is defined at an '
+             'offset lying before the start of the chunk being processed '
+             '(its bytes went by in earlier chunks; one big chunk still '
+             'delivers them, so the verdict depends on the chunking)')
     rep.rule('R1.6', 'a region defined while streaming does not start '
              'before the end of the regions it was located from')
     rep.rule('R1.7', 'InspectWrapper feeds every inspector the same '
@@ -266,7 +270,7 @@ def _schedules(ctx):
         groups.setdefault(key, {})[sched] = res
     diffs, und, n_ok = {}, {}, {}
     seen_classes = set()
-    geometry, tails = {}, {}
+    geometry, tails, behind = {}, {}, {}
     for key, by in sorted(groups.items()):
         fmt, label = meta[key]
         cls_key = _class_of(fmt, label)
@@ -289,7 +293,7 @@ def _schedules(ctx):
             for name, g in (res.get('regions') or {}).items():
                 if g and g[0] == 'unevaluable':
                     continue
-            _geometry(fmt, label, res, geometry, tails)
+            _geometry(fmt, label, res, geometry, tails, behind, sched)
         errs = set(v[4] for v in verdicts.values())
         if errs == {'ImageFormatError'}:
             # the inspector itself refused the stream, in every schedule
@@ -326,6 +330,13 @@ def _schedules(ctx):
         rep.check('R1.6', 'region geometry', True, 'every region defined '
                   'while streaming starts at or after the end of the '
                   'regions present when it was defined')
+    for k, (label, detail) in sorted(behind.items()):
+        rep.check('R1.8', k, False, 'image %r: %s' % (label, detail),
+                  case={'image': label})
+    if not behind:
+        rep.check('R1.8', 'regions behind the stream', True, 'in no image x '
+                  'schedule run is a region defined at an offset that '
+                  'earlier chunks have already passed')
     for k, (label, detail) in sorted(tails.items()):
         rep.check('R1.5', k, False, 'image %r: %s' % (label, detail),
                   case={'image': label})
@@ -348,7 +359,9 @@ def _show(v):
     return '(%s)' % ', '.join(_insp.describe(x) for x in v)
 
 
-def _geometry(fmt, label, res, geometry, tails):
+def _geometry(fmt, label, res, geometry, tails, behind=None, sched=None):
+    if behind is None:
+        behind = {}
     regs = res.get('regions') or {}
     static = set(res.get('static_regions') or ())
     ends = {}
@@ -356,7 +369,17 @@ def _geometry(fmt, label, res, geometry, tails):
         if not g or g[0] == 'unevaluable':
             continue
     for name, info in (res.get('born') or {}).items():
-        kind, off, floor = info
+        kind, off, floor, chunk_floor = info
+        if kind != 'tail' and off is not None and chunk_floor is not None \
+                and off < chunk_floor and sched is not None:
+            behind.setdefault(
+                'region %s[%s] behind the stream: image %r, schedule %s' % (
+                    fmt, name, label, sched),
+                (label, 'region %r is defined at offset %d while chunks '
+                 'that ended at %d or later have already been consumed: '
+                 'bytes %d..%d of the region are gone, yet a single chunk '
+                 'delivers them' % (name, off, chunk_floor, off,
+                                    chunk_floor - 1)))
         if kind == 'tail':
             tails.setdefault('tail window %s[%s]' % (fmt, name), (
                 label, 'the last-N-bytes window %r is created while '
